@@ -274,7 +274,9 @@ def _c18_real_world(vio, rng, tier):
                         if helper == "many_to_one":
                             mutil.connect_many_to_one(w, wrap(srcs), dsts[0], *shape)
                         elif helper == "evenly":
-                            mutil.connect_randomly(w, tuple(srcs) if flav == "tuple" else list(srcs), wrap(dsts), *shape)   # evenly is the documented default
+                            # evenly is the documented default; a max_connects given with it is documented as ignored
+                            mutil.connect_randomly(w, tuple(srcs) if flav == "tuple" else list(srcs), wrap(dsts), *shape,
+                                                   **({"max_connects": rng.choice([1, 2, 5])} if rng.random() < 0.5 else {}))
                         else:
                             mutil.connect_randomly(w, tuple(srcs) if flav == "tuple" else list(srcs), wrap(dsts), *shape, evenly=False)
                     finally:
